@@ -162,7 +162,7 @@ theorem modes_agree_aux (w : World) (cfg : Cfg) :
       | bytes => simp only [stLD, stLF]; cases o.toBytes? <;> rfl
       | bool => simp [stLD, stLF, Res.toOption]
       | enum e => simp only [stLD, stLF]; cases enumOf w e o <;> rfl
-      | lit vs => simp only [stLD, stLF]; split <;> rfl
+      | lit vs => simp only [stLD, stLF]; cases litStruct w vs o <;> rfl
       | coll k t' =>
         have hsz : sizeOf t' ≤ m := by simp at ht; omega
         rw [stLD_coll, stLF_coll]
